@@ -406,9 +406,13 @@ def list_tests(binp, cwd):
 
 
 def run_one(job):
-    binp, cwd, test, procs, seed, iters, tmo = job
+    binp, cwd, test, procs, seed, iters, tmo = job[:7]
     env = dict(os.environ, GOMAXPROCS=str(procs), VERIF_C18_SEED=str(seed), VERIF_C18_ITERS=str(iters),
                GORACE="halt_on_error=0 history_size=3")
+    if len(job) > 7 and job[7] is not None:
+        env["VERIF_C18_SWEEP"] = str(job[7])       # quick tier: the processes of a run share the sweep over the cut lengths
+    else:
+        env.pop("VERIF_C18_SWEEP", None)
     t0 = time.time()
     try:
         p = subprocess.run([binp, "-test.run", "^%s$" % test, "-test.count=1", "-test.v", "-test.timeout", "%ds" % tmo],
@@ -416,7 +420,7 @@ def run_one(job):
         out, rc = p.stdout + p.stderr, p.returncode
     except subprocess.TimeoutExpired as e:
         out, rc = ((e.stdout or b"").decode("utf8", "replace") if isinstance(e.stdout, bytes) else (e.stdout or "")) + "\n[harness-timeout]", -9
-    return dict(test=test, procs=procs, seed=seed, iters=iters, rc=rc, out=out, wall=time.time() - t0)
+    return dict(test=test, procs=procs, seed=seed, iters=iters, rc=rc, out=out, wall=time.time() - t0, sweep=env.get("VERIF_C18_SWEEP"))
 
 
 def classify(res, ks):
@@ -424,6 +428,7 @@ def classify(res, ks):
     viol, known = [], []
     out = res["out"]
     replay = dict(test=res["test"], GOMAXPROCS=res["procs"], VERIF_C18_SEED=res["seed"], VERIF_C18_ITERS=res["iters"],
+                  VERIF_C18_SWEEP=res.get("sweep"),
                   command="go test -tags verif -overlay <overlay.json> -race -count=1 -run '^%s$' (package of the test) with the env above" % res["test"])
     seen = set()
     for r in parse_races(out):
@@ -489,8 +494,9 @@ def dynamic_half(ctx, viol, known, cov, ks):
         tests[name] = list_tests(binp, cwd)
         for t in tests[name]:
             for rnd in range(rounds):
-                for pc in procs:
-                    jobs.append((binp, cwd, t, pc, ctx.seed + 1000 * rnd + pc, iters, 240 if quick else 600))
+                for ip, pc in enumerate(procs):
+                    jobs.append((binp, cwd, t, pc, ctx.seed + 1000 * rnd + pc, iters, 240 if quick else 600,
+                                 (ip + ctx.seed) % 2 if quick else None))
     if not any(tests.values()):
         viol.append(dict(what="no TestVerifC18 tests found in the overlay build", nofail=True, correspondence="harness/overlay/**/zz_verif_c18_test.go"))
         return
